@@ -1,4 +1,5 @@
 """C04 - numbers load exactly or are reported per policy, never silently altered (structural clauses)."""
+import re
 from bsv.dtab import INT_TYPES, base_type
 from bsv.effects import live_walk
 from bsv.facts import AnalysisBroken, child, children_with_role, strip, strip_targs
@@ -117,6 +118,14 @@ def run(prog, rep):
                 s = f.callee(e)
                 producer = strip_targs(s['q']) if s else '?'
             site = '%s|%s<-%s|%s' % (f.pq, name, producer, base_type(tt))
+            # text-to-number conversions of the back ends / the C library are lenient (first character, saturation, no error report): a load
+            # target fed from them bypasses the range-checked conversion and both policies
+            if bad is None and re.match(r'(pugi::xml_(attribute|text)::as_\w+|std::(strto\w+|ato\w+|sto\w+))$', producer):
+                rep.finding('R4.1', '%s|%s<-%s' % (f.pq, name, producer), f.loc(n),
+                            '%s stores the result of %s into the load target: the lenient text conversion of the back end replaces the range-checked '
+                            'conversion, so out-of-range or non-numeric text is silently turned into some value instead of reaching the overflow / '
+                            'mismatched-types policy' % (f.pq, producer), {'instantiation': f.id}, func=f.id)
+                continue
             if bad is None:
                 rep.ok('R4.1', site + '|' + f.sym.get('targs', '')[:50], sample={'function': f.pq, 'target': '%s (%s)' % (name, base_type(tt)), 'producer': producer,
                                                                             'casts': chain} if chain else None, nontrivial=bool(chain))
